@@ -1,1 +1,2 @@
 import Dalek.Props.C02.Scalar52
+import Dalek.Props.C02.Api
